@@ -6,4 +6,7 @@ Section CI.
 Variables (K V : Type) (ltb : K -> K -> bool).
 Definition CI (order : nat) (s : st K V) : Prop :=
   GI ltb order s /\ lock_inv2 K V s /\ all_pc_ok_b ltb order s = true.
+(* with minimum occupancy (suspended only at the node a Delete in flight is about to rebalance): what rules out
+   every panic of the concurrent model *)
+Definition CIfull (order : nat) (s : st K V) : Prop := CI order s /\ occ_ok_b order s = true.
 End CI.
